@@ -37,7 +37,8 @@ TECHNIQUE = ("Lean 4 proof (induction over alignment columns against a two-dimen
              "row-by-row table to the recurrence) + verified checker run on every actual output + correspondence")
 LEVEL_TEXT = ("proof, for every matrix / sequence pair, no length bound (36 theorems): "
               "LINEAR and AFFINE gap penalties in all three modes (global, semi-global, local): no valid alignment "
-              "(affine: without abutting gaps) has a public align.score() above the optimum and some valid alignment "
+              "(affine: without abutting gaps, where a FREE terminal gap also counts as a gap: C08_noabut_covers_free_terminal_gaps "
+              "shows the class is strictly smaller than all end-to-end alignments for terminal_penalty=False) has a public align.score() above the optimum and some valid alignment "
               "attains it (C08_upper_pub_lin/_aff need gap <= 0 only for local; C08_attained_pub_lin/_aff), incl. open<ext "
               "and zeros; align.score(terminal_penalty=False) = positional form on valid alignments "
               "(C08_scorePub_semi[_aff]); the row-by-row tables equal the recurrences (C08_table_lin/_aff, prefix form "
@@ -284,6 +285,19 @@ def corpus():
         c = dict(base, mode=mode, gap=gap, a=a, b=b, M=Mx, max=mx)
         c["ops"] = _ops(c)
         out.append(c)
+    # C09 observation: affine + terminal_penalty=False, an interior gap run may not end at a free sequence end
+    # (it would abut the other sequence's free terminal gaps): align_optimal reports the non-abutting optimum.
+    # The rescore ops tie the public score of the abutting (excluded) alignments to the model.
+    M3 = [[4, -3], [-3, 4], [-3, -3]]
+    for a, b, trs in [([1, 2], [1, 0], [[[0, 0], [1, -1], [-1, 1]]]),
+                      ([1, 2, 2], [1, 0, 1, 0, 0],
+                       [[[-1, 0], [-1, 1], [0, 2], [1, -1], [2, -1], [-1, 3], [-1, 4]],
+                        [[-1, 0], [-1, 1], [0, 2], [-1, 3], [-1, 4], [1, -1], [2, -1]]])]:
+        for gap in ([-1, -1], [-1]):
+            c = dict(base, mode="s", gap=gap, a=a, b=b, M=M3, max=50, alph2="chr",
+                     rs=[{"tp": 0, "trace": t} for t in trs])
+            c["ops"] = _ops(c)
+            out.append(c)
     # width / alphabet combinations on one fixed input
     for w1, w2 in [("u8", "u16"), ("u16", "u8"), ("u32", "u64"), ("u64", "u32"), ("u16", "u16"), ("u8", "u32"), ("u64", "u64")]:
         c = dict(base, mode="g", gap=[-2, -1], a=[0, 1, 2, 1, 0], b=[1, 2, 2, 0], w1=w1, w2=w2, alph2="chr",
